@@ -77,6 +77,7 @@ PROPS = {
                                                     __import__("extras").run_child("sim_uncontended", REPO, seed, 80 if tier == "quick" else 800)]),
     "C14": dict(level="other", extra=lambda prog, S, tier, seed: [__import__("extras").run_child("csv_roundtrip", REPO, seed, 150 if tier == "quick" else 3000)]),
     "C15": dict(level="other", extra=lambda prog, S, tier, seed: [__import__("extras").run_child("generator_shape", REPO, seed, 40 if tier == "quick" else 600)]),
+    "C12": dict(level="other", scans=_scan_suspend, native_budget=30),
     "C16": dict(scans=_scan_suspend),
     "C17": dict(scans=_scan_suspend),
     "C18": dict(scans=_scan_suspend, native_budget=25),
